@@ -17,11 +17,9 @@ def Transform.Rep (t : Transform) : Prop :=
   Rep32 t.m00 ∧ Rep32 t.m01 ∧ Rep32 t.m02 ∧ Rep32 t.m10 ∧ Rep32 t.m11 ∧ Rep32 t.m12 ∧
   Rep32 t.m20 ∧ Rep32 t.m21 ∧ Rep32 t.m22
 
-/-- the box contains the point `p` (16.16), except that nothing is claimed about the upper edge for a
-    coordinate above 32767.0, where `pixman_fixed_ceil` overflows (defect B) -/
-def ContainsExceptCeilOverflow (b : Box16) (p : Vec) : Prop :=
-  b.x1 * 65536 ≤ p.x ∧ b.y1 * 65536 ≤ p.y ∧
-  (p.x ≤ 2147418112 → p.x ≤ b.x2 * 65536) ∧ (p.y ≤ 2147418112 → p.y ≤ b.y2 * 65536)
+/-- the box (integer pixel coordinates) contains the point `p` (16.16), edges included -/
+def Contains (b : Box16) (p : Vec) : Prop :=
+  b.x1 * 65536 ≤ p.x ∧ b.y1 * 65536 ≤ p.y ∧ p.x ≤ b.x2 * 65536 ∧ p.y ≤ b.y2 * 65536
 
 def Box16.le (a b : Box16) : Prop := b.x1 ≤ a.x1 ∧ b.y1 ≤ a.y1 ∧ a.x2 ≤ b.x2 ∧ a.y2 ≤ b.y2
 
